@@ -23,8 +23,10 @@ Inductive c19case :=
 | KStream (initial : list emode) (steps : list (Z * op)) (mev : list mevent) (aev : list emode)
 (* a sequential history on a model constructed from an option list (Electric/Config.v):
    [panicked] = NewModel(opts...) panicked (then there is nothing else); the time of a step is the
-   base time the harness gave its clocks, the stamping clock is decided by the option list *)
-| KCfg (opts : list copt) (panicked : bool) (o0 : obs) (steps : list (Z * op * obs))
+   base time the harness gave its clocks, the stamping clock is decided by the option list;
+   [evclk] = which clocks (0 = real) the change times of a PullModes / PullActiveMode event
+   produced after the history showed, when measured *)
+| KCfg (opts : list copt) (panicked : bool) (o0 : obs) (steps : list (Z * op * obs)) (evclk : option (Z * Z))
 (* one Model.UpdateMode call with write options (Electric/UpdateOpts.v) on a store observed key by
    key (FindMode) before and after *)
 | KOpt (l : kstore) (m : emode) (w : wopts) (code : Z) (ret : option emode) (l' : kstore).
@@ -151,10 +153,14 @@ Definition agrees (c : c19case) : bool :=
   | KOpt l m w code ret l' =>
       let '(ml, mc, mr) := update_w true l m w in
       kstore_eqb ml l' && (mc =? code) && oemode_eqb mr ret
-  | KCfg opts panicked o0 steps =>
+  | KCfg opts panicked o0 steps evclk =>
       match new_model opts with
       | None => panicked && is_nil steps
       | Some s0 => negb panicked && obs_matches s0 (ok_ None) o0 && replay s0 (retime (cfg_clock opts) steps)
+                   && match evclk with
+                      | None => true
+                      | Some (mk, ak) => (mk =? cfg_mclock opts) && (ak =? cfg_aclock opts)
+                      end
       end
   | KSeq initial o0 steps =>
       obs_matches (init_state initial) (ok_ None) o0 && replay (init_state initial) steps
@@ -290,7 +296,7 @@ Definition C19_ok (c : c19case) : bool :=
          "the active mode is never deleted" rest on), at most one mode is normal, the returned mode is the one addressed *)
       keyedb l' && distinct (map fst l') && (zlen (normals (bodies l')) <=? 1)
       && match ret with Some b => String.eqb (mid b) (mid m) | None => true end
-  | KCfg opts panicked o0 steps =>
+  | KCfg opts panicked o0 steps _ =>
       (* the same clauses as for KSeq; "the model clock" = the clock of the last electricpb.WithClock *)
       panicked || ((zlen (normals (omodes o0)) <=? 1)
                    && steps_ok (omodes o0) (oactive o0) false (retime (cfg_clock opts) steps))
@@ -332,7 +338,7 @@ Definition cfg_ok (opts : list copt) : bool :=
 Definition C19_guard (c : c19case) : bool :=
   match c with
   | KOpt l _ _ _ _ _ => keyedb l && distinct (map fst l) && (zlen (normals (bodies l)) <=? 1)
-  | KCfg opts _ _ steps => cfg_ok opts && forallb (fun p => op_guard (snd (fst p))) steps
+  | KCfg opts _ _ steps _ => cfg_ok opts && forallb (fun p => op_guard (snd (fst p))) steps
   | KSeq initial _ steps => initial_ok initial && forallb (fun p => op_guard (snd (fst p))) steps
   | KConc initial _ threads _ => initial_ok initial && forallb (forallb (fun c => op_guard (cop_op c))) threads
   | KStream initial steps _ _ =>
